@@ -4,6 +4,7 @@ import TsVerif.C17.Judge
 import TsVerif.C17.Merge
 import TsVerif.C17.MergeMulti
 import TsVerif.C17.Intersect
+import TsVerif.C17.Locals
 /-!
 Driver for C17.  Reads the case stream written by `harness/src/bin/c17` and prints one line per case:
 
@@ -37,6 +38,7 @@ structure St where
   caps : List Cap := []
   defs : Array LayerDef := #[]
   top : List Nat := []
+  lcaps : List LCap := []
   irTotal : Nat := 0
   irBad : Nat := 0
   irReal : Nat := 0
@@ -172,6 +174,39 @@ def parseINodes (s : String) : List INode :=
 def irEqual (incl parents nodes result : String) : Bool :=
   decide (intersectRanges (parseRgs parents) (parseINodes nodes) (incl == "1") = parseRgs result)
 
+def parseLKind (k : String) : LKind :=
+  let body := (k.drop 1).toString
+  let fs := body.splitOn ":"
+  if k.startsWith "S" then .scope (body == "1")
+  else if k.startsWith "D" then
+    match fs with
+    | [a, b, c] => .defn (natOf a) (natOf b) (c == "1")
+    | _ => .other
+  else if k.startsWith "R" then
+    match fs with
+    | [a, c] => .ref (natOf a) (c == "1")
+    | _ => .other
+  else if k.startsWith "H" then
+    match fs with
+    | [h, nl] => .hl (if h == "n" then none else some (natOf h)) (nl == "1")
+    | _ => .other
+  else .other
+
+def parseLCaps (s : String) : List LCap :=
+  if s == "-" then [] else (s.splitOn ",").filterMap fun t => match t.splitOn "-" with
+    | [a, b, nd, k] => some { s := natOf a, e := natOf b, node := natOf nd, kind := parseLKind k }
+    | _ => none
+
+/-- `run lmerge`: the locals model (one layer) against the real event stream. -/
+def runLMerge (s : St) : String :=
+  let n := s.src.length
+  let m := mergeLocals n s.lcaps
+  let corr := if decide (m = s.evs) then "ok" else "DIFF"
+  let wf := judgeEvents n s.evs
+  let nref := (s.lcaps.filter fun c => match c.kind with | .ref _ _ => true | _ => false).length
+  let ndef := (s.lcaps.filter fun c => match c.kind with | .defn _ _ _ => true | _ => false).length
+  s!"{s.id} kind=K corr={corr} wf={if wf then "ok" else "FAIL"} ncaps={s.lcaps.length} ndef={ndef} nref={nref} depth={maxDepth s.evs} err={s.err}"
+
 /-- `run mmerge`: the multi-layer merge model against the real event stream. -/
 def runMMerge (s : St) : String :=
   let n := s.src.length
@@ -212,6 +247,8 @@ def step (s : St) (line : String) : IO St := do
   | ["run", "merge"] => IO.println (runMerge s); return s
   | ["layer", _, d, c] => return { s with defs := s.defs.push { depth := natOf d, caps := parseRCaps c } }
   | ["top", t] => return { s with top := parseNats t }
+  | ["lcaps", c] => return { s with lcaps := parseLCaps c }
+  | ["run", "lmerge"] => IO.println (runLMerge s); return s
   | ["ir", incl, ps, ns, res, real] =>
     -- with the re-export hook: the REAL private intersect_ranges' answer as well
     let ok := irEqual incl ps ns res && irEqual incl ps ns real
